@@ -346,3 +346,7 @@ def c19_async_close_late(rp):               # fixed e328342
 def c19_attached_after_close(rp):           # fixed fb5761c
     return (rp.get('kind') == 'redirect_e2e' and rp.get('class') == 'attached-after-close'
             and rp.get('target') in ('pipe', 'socket'))
+
+
+def c20_socks_eof_before_request(rp):       # found in round 3; fix proposed as /var/tmp/c20/fix_6_socks_eof_before_request.diff
+    return rp.get('kind') == 'socks_eof_before_request'
